@@ -263,6 +263,26 @@ def rejection_variants(fmt, base):
         occs = mo.occs[::-1].copy()
         if not np.array_equal(occs, mo.occs):
             out.append(("non-aufbau", variant(base, mo=attrs.evolve(mo, occs=occs)), lambda allow: True))
+        # each spin channel is checked separately: alpha in aufbau order but beta not (a singly occupied
+        # orbital below a doubly occupied one), beta in order but alpha not (via occs_aminusb), fractional beta
+        if mo.kind == "restricted" and mo.occs is not None and len(mo.occs) >= 3:
+            n = len(mo.occs)
+            o1 = np.zeros(n)
+            o1[:2] = [1.0, 2.0]
+            out.append(("non-aufbau-beta-only", variant(base, mo=attrs.evolve(mo, occs=o1, occs_aminusb=None)),
+                        lambda allow: True))
+            o2 = np.zeros(n)
+            o2[:3] = [2.0, 1.0, 1.0]
+            am = np.zeros(n)
+            am[:3] = [0.0, -1.0, 1.0]   # alpha (1,0,1): hole below an occupied orbital; beta (1,1,0) fine
+            out.append(("non-aufbau-alpha-only", variant(base, mo=attrs.evolve(mo, occs=o2, occs_aminusb=am)),
+                        lambda allow: True))
+            o3 = np.zeros(n)
+            o3[:2] = [2.0, 1.0]
+            am3 = np.zeros(n)
+            am3[:2] = [0.0, 0.5]        # alpha (1, .75), beta (1, .25): fractional
+            out.append(("fractional-spin-occupations", variant(base, mo=attrs.evolve(mo, occs=o3, occs_aminusb=am3)),
+                        lambda allow: True))
     return out
 
 
